@@ -197,10 +197,69 @@ def _eq(a, b):
         return False
 
 
+def _folded_lists(p):
+    """A fresh list whose exact contents are known, that is stored into one
+    location and otherwise only appended to -- with nothing but stores and
+    its own appends between the first and the last of these events, so no
+    one can see it half built -- is the same as storing the finished list
+    (`d[k] = []; d[k].append(v)`, `L = []; L.append(v); d[k] = L` and
+    `d[k] = [v]` are one effect).  Returns ({container: list term},
+    indices of the append effects to drop)."""
+    builders = getattr(p, "builders", None) or {}
+    fold, drop = {}, set()
+    for n, contents in builders.items():
+        if not contents:
+            continue
+        c = ("newlist", n)
+        if p.outcome is not None and _occurs(p.outcome, c):
+            continue
+        own, stores, other = [], [], False
+        for i, e in enumerate(p.effects):
+            if not any(_occurs(x, c) for x in e[1:] if isinstance(x, tuple)):
+                continue
+            if e[0] == "call" and e[1][1][0] == "attr" and e[1][1][1] == c \
+                    and e[1][1][2] in ("append", "extend") \
+                    and not any(_occurs(a, c) for a in e[1][2]):
+                own.append(i)
+            elif e[0] == "store" and e[2] == c and not _occurs(e[1], c):
+                stores.append(i)
+            elif e[0] == "item-store" and e[3] == c \
+                    and not _occurs(e[1], c) and not _occurs(e[2], c):
+                stores.append(i)
+            else:
+                other = True
+        if other or len(stores) != 1 or not own:
+            continue
+        lo, hi = min(own + stores), max(own + stores)
+        if any(p.effects[i][0] not in ("store", "item-store")
+               and i not in own for i in range(lo, hi + 1)):
+            continue
+        fold[c] = ("list", tuple(contents))
+        drop.update(own)
+    return fold, drop
+
+
+def _subst(t, fold):
+    if not fold or not isinstance(t, tuple):
+        return t
+    if t in fold:
+        return fold[t]
+    if t and t[0] in ("closure", "lambda", "const"):
+        return t
+    return tuple(_subst(x, fold) for x in t)
+
+
 def _raw_effects(p):
     out = []
     hidden = _non_escaping_containers(p)
-    for e in p.effects:
+    fold, drop = _folded_lists(p)
+    effects = p.effects
+    if fold:
+        effects = [tuple(_subst(x, fold) if isinstance(x, tuple) else x
+                         for x in e) if e[0] in ("store", "item-store")
+                   else e
+                   for i, e in enumerate(p.effects) if i not in drop]
+    for e in effects:
         if hidden and e[0] == "call" and e[1][1][0] == "attr" \
                 and e[1][1][1] in hidden:
             continue
